@@ -8,6 +8,8 @@ import time
 import traceback
 
 ROOT = os.path.dirname(os.path.dirname(os.path.abspath(__file__)))   # /verif checkout
+# sensitivity runs against scratch copies must not overwrite committed evidence
+OUT = os.environ.get("VERIF_OUT") or ("/tmp/verif-scratch-out" if os.environ.get("VERIF_NO_EVIDENCE") else ROOT)
 NCPU = int(os.environ.get("VERIF_JOBS", "16"))
 
 
@@ -101,6 +103,24 @@ def load_known(pid):
 # ---------------------------------------------------------------------------
 # hypothesis driving
 
+def finish_shard(stats, v, replay_fn=None):
+    """record a (Hypothesis-shrunk) Violation in stats, after statement-level minimisation of IR programs"""
+    if v is None:
+        return stats
+    case, msg = v.case, v.msg
+    if replay_fn is not None and isinstance(case, dict) and "stmts" in case:
+        try:
+            from harness.minimise import minimise
+            small = minimise(case, lambda c: replay_fn(c) is not None)
+            m2 = replay_fn(small)
+            if m2 is not None:
+                case, msg = small, m2
+        except Exception:
+            pass
+    stats.violations.append({"case": case, "msg": msg, "key": v.key})
+    return stats
+
+
 def drive(test, seed, max_examples, shrink=True, stateful_steps=None):
     """Run a @given test (or a state machine class) deterministically from `seed`.
     Returns None, or the (shrunk) Violation. Anything else that escapes is a harness error."""
@@ -192,9 +212,9 @@ class Ctx:
             if key in seen:
                 continue
             seen.add(key)
-            os.makedirs(os.path.join(ROOT, "replays"), exist_ok=True)
+            os.makedirs(os.path.join(OUT, "replays"), exist_ok=True)
             rel = os.path.join("replays", "%s-%s.json" % (self.pid, key))
-            with open(os.path.join(ROOT, rel), "w") as f:
+            with open(os.path.join(OUT, rel), "w") as f:
                 json.dump({"property": self.pid, "message": v["msg"], "key": v.get("key"),
                            "case": v["case"]}, f, indent=1, default=str)
             replays.append((rel, v))
@@ -217,8 +237,8 @@ class Ctx:
             "coverage": cov, "assumptions": self.assumptions,
             "wall_s": round(time.time() - self.t0, 2), "violations": len(replays),
         }
-        os.makedirs(os.path.join(ROOT, "evidence"), exist_ok=True)
-        with open(os.path.join(ROOT, "evidence", self.pid + ".json"), "w") as f:
+        os.makedirs(os.path.join(OUT, "evidence"), exist_ok=True)
+        with open(os.path.join(OUT, "evidence", self.pid + ".json"), "w") as f:
             json.dump(ev, f, indent=1, default=str)
         for key, what in self.known_still_failing:
             print("KNOWN-FINDING: property=%s key=%s %s" % (self.pid, key, what))
